@@ -144,6 +144,19 @@ def work_year(chunk):
                                 acc.bad('grade-not-strictly-monotone', dict(case, perf=p), 'grade %r after %r' % (gr, prevg))
                                 break
                         prevg = gr
+                    if full:
+                        # the verbose option prints its working; the answer must be the same
+                        import io as _io, contextlib as _cl
+                        acc.n += 1
+                        pv = best * 1.07
+                        try:
+                            with _cl.redirect_stdout(_io.StringIO()):
+                                gv = a.wma_age_grade(gs, A, evs, pv, True, year=year)
+                            g0 = a.wma_age_grade(gs, A, evs, pv, year=year)
+                            if gv != g0:
+                                acc.bad('verbose-option-changes-the-grade', dict(case, perf=pv), 'verbose=True gives %r, verbose=False %r' % (gv, g0))
+                        except Exception as e:
+                            acc.bad('grade-raises:%s:verbose' % type(e).__name__, dict(case, perf=pv), repr(e))
                     if full and want == 1:
                         acc.n += 1
                         g1 = a.wma_age_grade(gs, A, ev, best, year=year)
